@@ -1,15 +1,20 @@
 """C11 — ports are bounded FIFO channels with accurate capacity and notifications
 (spec/tick/Port.tla, driver ports/port)."""
-from vlib import objcheck
+import json
+from vlib import core, objcheck
 
 LEVEL = "model_checking"
 TECHNIQUE = ("TLA+ specification of one port (two bounded FIFO buffers, four required notifications) model-checked by "
              "TLC (bounds, FIFO steps, notification rule phrased on the state change); the complete bounded state graph "
              "is replayed transition by transition, plus seeded random walks, on the real messaging.NewPort with a "
-             "counting stub owner and stub connection")
+             "counting stub owner and stub connection; concurrent mode: from every state, one operation is parked inside the port at "
+             "its own hook position while a second goroutine runs one or two operations, and the outcome must be explained by some "
+             "sequential order in the same graph (linearizability of pairs, required notifications contained in the observed ones)")
 LEVEL_TEXT = ("exhaustive within bounds: every reachable state and transition of Port.tla for incoming/outgoing capacities "
               "1..2 (quick) / 1..3 (thorough, in != out included) and 2/3 message values is executed on the real port")
-LEVEL_NOTE = ("capacity-0 ports and concurrent use of one port are out of scope; the port exposes no content accessor, so "
+LEVEL_NOTE = ("capacity-0 ports are out of scope; concurrency is covered for two goroutines and the interleavings reachable by parking "
+              "one operation at its hook position (deliver/send/retrievein/retrieveout against 16 one- or two-operation sequences), not "
+              "for arbitrary schedules; the port exposes no content accessor, so "
               "contents are compared through sizes, heads and CanSend/CanDeliver after every step, every retrieve result, and "
               "a full drain at the end of each history")
 
@@ -40,7 +45,7 @@ def run(ck):
                       "send on empty->non-empty outgoing) are compared; extra notifications are tolerated, a missing one is a "
                       "mismatch; each history ends with a full drain of both buffers compared with the specification's contents. "
                       "Non-trivial = distinct history containing a required notification, a refusal or an empty retrieve/peek.")
-    ck.assumptions += ["one port used from one goroutine; capacities >= 1",
+    ck.assumptions += ["capacities >= 1; sequential histories from one goroutine, concurrent mode with two goroutines on one port",
                        "messages are messaging.MsgMeta values identified by ID; value 0 (nil message) is not in Vals",
                        "notifications are observed as counter deltas of the stub owner (NotifyRecv/NotifyPortFree) and the stub "
                        "connection (NotifySend/NotifyAvailable) during the operation that requires them"]
@@ -56,3 +61,52 @@ def run(ck):
 
     walks, wl = (150, 60) if ck.tier == "quick" else (1500, 120)
     objcheck.replay_graph(ck, g, "ports", "port", walks=walks, walk_len=wl, keyfn=keyfn, nontrivial=nontrivial)
+    concurrent_pairs(ck, g)
+
+
+def concurrent_pairs(ck, g):
+    """Two goroutines on one real port, decided by the same graph: operation A is parked inside the port at its own hook
+    position while the sequence B runs; the outcome must be explained by some position of A within B in Port.tla."""
+    keys = list(g.nodes.keys())
+    idx = {k: i for i, k in enumerate(keys)}
+    nodes = [g.nodes[k] for k in keys]
+    edges = [{"s": idx[s], "a": a, "t": idx[t]} for (s, a, t) in g.edges]
+    states = []
+    for k in keys:
+        if k not in g.parent:
+            continue
+        _, steps = g.path_to(k)
+        states.append({"node": idx[k], "path": [{"op": a["op"], "arg": a["arg"]} for a, _ in steps]})
+    O = lambda op, arg=0: {"op": op, "arg": arg}
+    a_ops = [O("deliver", 2), O("send", 2), O("retrievein"), O("retrieveout")]
+    b_seqs = [[O("deliver", 1)], [O("send", 1)], [O("retrievein")], [O("retrieveout")],
+              [O("retrievein"), O("retrievein")], [O("retrievein"), O("numin")], [O("retrievein"), O("peekin")],
+              [O("retrievein"), O("candeliver")], [O("retrieveout"), O("retrieveout")], [O("retrieveout"), O("numout")],
+              [O("retrieveout"), O("peekout")], [O("retrieveout"), O("cansend")], [O("deliver", 1), O("numin")],
+              [O("send", 1), O("numout")], [O("deliver", 1), O("retrievein")], [O("send", 1), O("retrieveout")]]
+    out = core.harness(ck.binary("ports"), "portconc",
+                       {"nodes": nodes, "edges": edges, "states": states, "a_ops": a_ops, "b_seqs": b_seqs,
+                        "wait_us": 2000, "workers": 32, "max_mismatches": 200}, timeout=600)
+    ck.cov["concurrent_cases"] = out["cases"]
+    ck.cov["concurrent_a_parked_inside_port"] = out["a_parked_inside_port"]
+    ck.cov["concurrent_b_blocked_until_release"] = out["b_blocked_until_release"]
+    ck.cov["concurrent_b_completed_while_a_parked"] = out["b_completed_while_a_parked"]
+    ck.cov["concurrent_cases_by_pair"] = out.get("cases_by_pair")
+    ck.cov["traces_validated_against_impl"] += out["cases"]
+    ck.cov["distinct_nontrivial"] += out["a_parked_inside_port"]
+    for s in (out.get("samples") or [])[:2]:
+        ck.sample({"concurrent": s}, cap=8)
+    ms = out.get("mismatches") or []
+    for m in ms:
+        if m["kind"] == "setup":
+            raise core.Broken("concurrent mode could not reach state %s: %s" % (json.dumps(m["state"]), json.dumps(m["observed"])))
+        pair = m["a"]["op"] + "||" + ";".join(o["op"] for o in m["b"])
+        cls = m["kind"] + (":" + ",".join(m.get("missing") or []) if m["kind"] == "missing_notification" else "")
+        desc = ("concurrent %s from state %s: observed %s is explained by no sequential order of Port.tla%s" % (
+            pair, json.dumps(m["state"]), json.dumps(m["observed"]),
+            " with its required notifications (missing: %s)" % ",".join(m.get("missing") or []) if m["kind"] == "missing_notification" else ""))
+        ck.report({"mode": "concurrent", "op": pair, "class": cls}, desc, {"driver": "portconc", "case": m})
+    ck.note("concurrent pairs: %d cases (%d states x %d A x %d B), A parked inside the port in %d, B blocked until release in %d, "
+            "B completed while A was parked in %d; %d mismatches" % (
+                out["cases"], len(states), len(a_ops), len(b_seqs), out["a_parked_inside_port"], out["b_blocked_until_release"],
+                out["b_completed_while_a_parked"], out.get("mismatch_count", len(ms))))
